@@ -107,9 +107,18 @@ theorem defineAttrs_iff {parent : OType} {ds : List AttrDecl} {as : List Attr} :
         unfold defineAttrs
         simp [hm, ho, ih.mpr htail]
 
+theorem assertOverride_noShadow {parent : OType} {a : Attr} (h : assertOverride parent a = .ok ()) :
+    fnShadow parent a.name = false := by
+  unfold assertOverride at h
+  cases hs : fnShadow parent a.name with
+  | false => rfl
+  | true => simp [hs] at h
+
 theorem assertOverride_override {parent : OType} {a : Attr} (h : assertOverride parent a = .ok ()) :
     a.override = (findAttr parent a.name).isSome := by
+  have hs := assertOverride_noShadow h
   unfold assertOverride at h
+  simp only [hs, Bool.false_eq_true, if_false] at h
   cases hf : findAttr parent a.name with
   | none =>
     simp only [hf] at h
@@ -131,6 +140,7 @@ theorem constDecl_rel {parent : OType} {d : AttrDecl} {a : Attr} (hm : mkAttr d 
     AttrRel parent (constDecl parent (a.name, a.value.getD .undef)) a := by
   refine ⟨?_, ho⟩
   have hov := assertOverride_override ho
+  have hsh := assertOverride_noShadow ho
   obtain ⟨hk, -, hfin⟩ := mkAttrCore_fields (mkAttr_core hm).1
   obtain ⟨n, ty, k, v, o, fin⟩ := a
   unfold Attr.constLike at hc
@@ -141,13 +151,13 @@ theorem constDecl_rel {parent : OType} {d : AttrDecl} {a : Attr} (hm : mkAttr d 
     simp only at hk hfin
     rw [hfin]; unfold AttrDecl.isFinal; simp [← hk]
   subst hfin'
-  simp only at hov
+  simp only at hov hsh
   subst hov
   cases v with
   | none => simp at hv
   | some w =>
     cases w <;> simp at hv <;> subst hv <;>
-      simp [constDecl, tyOfVal, mkAttr, mkAttrCore, AttrDecl.isFinal, inst]
+      simp [constDecl, tyOfVal, mkAttr, mkAttrCore, AttrDecl.isFinal, inst, hsh]
 
 theorem forall₂_right_mem {α β} {R : α → β → Prop} {l : List α} {u : List β} (h : List.Forall₂ R l u) :
     ∀ b ∈ u, ∃ a ∈ l, R a b := by
@@ -237,7 +247,7 @@ theorem define_parts {env : List OType} {d : Def} {t : OType} (h : define env d 
     ∃ attrs, defineAttrs (parentOf env d) (d.decls (parentOf env d)) = .ok attrs ∧
       checkEquality attrs (parentOf env d) (d.equality.toList?.getD []) = .ok () ∧
       checkSerialization attrs (parentOf env d) false [] (d.serialization.getD []) = .ok () ∧
-      defineFuncs (parentOf env d) d.funcs = .ok () ∧
+      defineFuncs (parentOf env d) (d.attrs.map (·.name)) d.funcs = .ok () ∧
       t = { id := env.length, attrs := attrs, equality := d.equality.toList?,
             includeType := d.includeType.getD true, serialization := d.serialization, params := d.params,
             funcs := d.funcs } ::
@@ -256,7 +266,7 @@ theorem define_parts {env : List OType} {d : Def} {t : OType} (h : define env d 
     | error c => simp [ha] at h
     | ok attrs =>
       simp only [ha] at h
-      cases hfn : defineFuncs parent d.funcs with
+      cases hfn : defineFuncs parent (d.attrs.map (·.name)) d.funcs with
       | error c => simp [hfn] at h
       | ok u0 =>
       simp only [hfn] at h
@@ -302,12 +312,30 @@ theorem typeDef_decls {parent : OType} {ds : List AttrDecl} {as : List Attr} (h 
     obtain ⟨d, -, hm, ho⟩ := hall a (List.mem_filter.mp ha).1
     exact constDecl_rel hm ho (List.mem_filter.mp ha).2
 
+/-- the functions loop does not depend on the `attributes` keys beyond the name-conflict test -/
+theorem defineFuncs_keys {parent : OType} {keys keys' : List String} {fs : List FnDecl}
+    (hk : ∀ f ∈ fs, keys'.contains f.name = false) (h : defineFuncs parent keys fs = .ok ()) :
+    defineFuncs parent keys' fs = .ok () := by
+  induction fs with
+  | nil => rfl
+  | cons f fs ih =>
+    unfold defineFuncs at h ⊢
+    simp only [hk f (by simp), Bool.false_eq_true, if_false]
+    split at h
+    · cases h
+    · cases ha : assertOverrideFn parent f with
+      | error c => simp [ha] at h
+      | ok u =>
+        simp only [ha] at h ⊢
+        exact ih (fun g hg => hk g (by simp [hg])) h
+
 /-- an accepted definition, re-created from the InitHash of the type it defined (`typeDef`): accepted again, and the type
     is the same except that the own attributes stand in the order of the printed definition (`constants` last) —
     provided no own attribute is a constant of an `Optional[…]` type with the value undef -/
 theorem define_typeDef {env : List OType} {d : Def} {l : Level} {p : OType} (hnd : (d.attrs.map (·.name)).Nodup)
     (hcn : (d.constants.map (·.1)).Nodup) (h : define env d = .ok (l :: p))
-    (hu : ∀ a ∈ l.attrs, a.undefConstant = false) :
+    (hu : ∀ a ∈ l.attrs, a.undefConstant = false)
+    (hfk : ∀ f ∈ l.funcs, ∀ a ∈ l.attrs, a.name = f.name → a.constLike = true) :
     define env (typeDef d.parent l) = .ok ({ l with attrs := reorder l.attrs } :: p) := by
   obtain ⟨hpar, hboth, attrs, hattrs, heq, hser, hfn, ht⟩ := define_parts h
   have hp : parentOf env (typeDef d.parent l) = parentOf env d := rfl
@@ -315,6 +343,19 @@ theorem define_typeDef {env : List OType} {d : Def} {l : Level} {p : OType} (hnd
       d.funcs := (List.cons.inj ht).1
   have hpars : (typeDef d.parent l).params = d.params := by rw [hl]; rfl
   have hfns : (typeDef d.parent l).funcs = d.funcs := by rw [hl]; rfl
+  have hfn' : defineFuncs (parentOf env d) ((typeDef d.parent l).attrs.map (·.name)) d.funcs = .ok () := by
+    apply defineFuncs_keys _ hfn
+    intro f hf
+    have hfl : f ∈ l.funcs := by rw [hl]; exact hf
+    cases hc : ((typeDef d.parent l).attrs.map (·.name)).contains f.name with
+    | false => rfl
+    | true =>
+      exfalso
+      simp only [typeDef, List.map_map, List.contains_eq_mem, List.mem_map, List.mem_filter, decide_eq_true_eq,
+        Function.comp] at hc
+      obtain ⟨a, ⟨ha, hnc⟩, han⟩ := hc
+      have := hfk f hfl a ha (by simpa [Attr.decl] using han)
+      simp [this] at hnc
   have hpp : p = parentOf env d := (List.cons.inj ht).2
   have hla : l.attrs = attrs := by rw [hl]
   have hnames : (attrs.map (·.name)).Nodup := by
@@ -328,7 +369,7 @@ theorem define_typeDef {env : List OType} {d : Def} {l : Level} {p : OType} (hnd
     rw [hl]; simp only [typeDef]
     cases d.includeType.getD true <;> rfl
   unfold define
-  simp only [hp, hpars, hfns, hfn, hpar, typeDef_noBoth hnames d.parent l hla, Bool.false_eq_true, if_false,
+  simp only [hp, hpars, hfns, hfn', hpar, typeDef_noBoth hnames d.parent l hla, Bool.false_eq_true, if_false,
     typeDef_decls hattrs (by rw [← hla]; exact hu) d.parent l hla, heqs, hsers, hinc]
   rw [checkEquality_congr hlook, heq]
   simp only
